@@ -435,15 +435,16 @@ def eval_effect_sphinx(ctx, case):
     """(d) through the Sphinx front end: conf.py value vs the same value in the document's front matter, and the
     environment's global config is deep-equal before and after the build (f)."""
     name, val, base = SPHINX_EFFECTS[case["effect"]]
-    body = EXTRA_DOC
+    # figure-md switches an extension on for its own body: the per-document configuration it works on must not be the project's
+    body = EXTRA_DOC + "\n```{figure-md} fig-c13\n<img src=\"f.png\" alt=\"x\">\n\ncaption text\n```\n\n<img src=\"after.png\" alt=\"raw again\">\n"
     fm_extra = {"title": "Front Title"} if name == "title_to_header" else {}
     glob_kw = dict(base)
     glob_kw[name] = {**base.get(name, {}), **val} if fields()[name].metadata.get("merge_topmatter") else val
     t_global = fm_wrap(case, yaml.safe_dump({"other": "x", **fm_extra})) + "" + body
     t_front = fm_wrap(case, yaml.safe_dump({"other": "x", **fm_extra, "myst": {name: val}})) + "" + body
-    out = []
+    out, out_later = [], []
     for text, kw in ((t_global, glob_kw), (t_front, base)):
-        b = drive.SphinxBuild({"index.md": text}, conf={"myst_" + k: v for k, v in kw.items()}, builder="dummy")
+        b = drive.SphinxBuild({"index.md": text, "zlater.md": "---\norphan: true\n---\n# Later\n\n<img src=\"later.png\" alt=\"read after index\">\n"}, conf={"myst_" + k: v for k, v in kw.items()}, builder="dummy")
         try:
             try:
                 b.build()
@@ -458,10 +459,16 @@ def eval_effect_sphinx(ctx, case):
             expect = MdParserConfig(**{k: v for k, v in kw.items()})
             if repr(sorted((k, repr(v)) for k, v in expect.as_dict().items() if k in ("enable_extensions", name))) != repr(sorted((k, repr(v)) for k, v in b.app.env.myst_config.as_dict().items() if k in ("enable_extensions", name))):
                 ctx.violation("snapshot:sphinx-global-config-changed-by-build", f"env.myst_config[{name}] after the build differs from the conf.py value", case, {"expected": repr(getattr(expect, name)), "after": repr(getattr(b.app.env.myst_config, name))})
+            later = b.doctree("zlater").deepcopy()
+            drive.mask_lines(later)
+            out_later.append(later.pformat().replace(b.src, "SRC"))
             out.append((doc.pformat().replace(b.src, "SRC"), sorted(re.sub(r"^[^ ]* WARNING: ", "", re.sub(r"\x1b\[[0-9;]*m", "", l)) for l in b.norm_warnings().splitlines() if l.strip())))
         finally:
             b.close()
     ctx.count("sphinx_effect_pairs_compared")
+    if name not in ("enable_extensions",) and len(out_later) == 2 and ("<raw" in out_later[0]) != ("<raw" in out_later[1]) and "html_image" not in str(base.get("enable_extensions", "")):
+        ctx.violation("snapshot:sphinx-later-document-sees-file-level-state", f"[sphinx] a document read after index.md is rendered differently depending on whether {name} was set in index.md's front matter or in conf.py", case,
+                      {"later_conf": out_later[0][:600], "later_front": out_later[1][:600]})
     if out[0][0] != out[1][0]:
         import difflib
 
